@@ -441,6 +441,28 @@ _T = {"a": {"t": "d", "ch": {"b": {"t": "d", "ch": {"f": {"t": "f", "c": "x"}, "
                               "l": {"t": "l", "to": "b"}, "p": {"t": "p"}}},
       "c": {"t": "d", "ch": {"k": {"t": "f", "c": "1"}}}, "top": {"t": "f", "c": ""}}
 
+def _sub(depth):
+    return {"t": "d", "ch": {"f": {"t": "f", "c": ""}, "sub": _sub(depth - 1)}} if depth else {"t": "d", "ch": {"f": {"t": "f", "c": ""}}}
+
+
+# names whose characters might be mistaken for a path separator or swallowed by a pattern, each holding a chain of
+# directories, and a plain twin: every depth window is enumerated over them (a detection of "this name shifts the level"
+# must not rest on a lucky draw of the generator - DESIGN.md 12.6)
+_ODD_DIRS = ["a\\b", "\\lead", "trail\\", "d[0]", "x y", "q?", "s*", "plain"]
+_ODD_TREE = {n: _sub(3) for n in _ODD_DIRS}
+
+
+def enumerate_cases(tier):
+    cases = []
+    for mn in (None, 1, 2, 3, 4, 5):
+        for mx in (None, 1, 2, 3, 4, 5):
+            for mode in (None, "dfs"):
+                cases.append(_pin(_ODD_TREE, [_r([], "dot", mn, mx, mode)]))
+    for mn, mx in ((2, 3), (3, None), (None, 3), (4, 4)):
+        cases.append(_pin(_ODD_TREE, [_r([], "abs", mn, mx, "bfs", "depth")]))
+    return cases
+
+
 PINNED = [
     ("dot-root-window", _pin(_T, [_r([], "dot", 2, 3)])),
     ("two-roots-dfs", _pin(_T, [_r(["a"], "rel", None, 2, "dfs"), _r(["c"], "abs", 1, None, "bfs", "depth")])),
